@@ -278,18 +278,26 @@ fn check_pack(idx: u64, list: &[ds::Horizontal], mlist: &[kp::Node], t: Target, 
     if got.depth.0 as i64 != want.depth {
         problems.push(format!("depth {} != {}", got.depth.0, want.depth));
     }
+    // Not part of the statement (it speaks of width, height, depth, glue order and glue ratio):
+    // recorded as outcome classes, never failures (AUDIT.md).
     if got.shift_amount.0 != 0 {
-        problems.push("shift_amount of a fresh box is not 0".into());
+        acc.class("note: shift_amount of the fresh box is not 0 (TeX §649 sets 0)");
     }
     if got.list.as_slice() != list {
-        problems.push("the list inside the box is not the list that was packed".into());
+        acc.class("note: the list inside the box is not the list that was packed");
     }
     let dims_bad = !problems.is_empty();
     // natural width as the implementation saw it decides its own excess; judge the glue setting
     // only against the model (a wrong natural width shows up above and again here)
     let (gn, gd) = (got.glue_ratio.num.0 as i64, got.glue_ratio.den.0 as i64);
     if got.glue_order as usize != want.order {
-        problems.push(format!("glue order {:?} != {}", got.glue_order, want.order));
+        if want.sign == kp::Sign::Normal {
+            // the glue of the box is not set: "the highest order with non-zero total" does not exist
+            // on the needed side, TeX stores normal but never shows it (§186) - recorded only
+            acc.class("note: glue order of an unset box differs from TeX's normal");
+        } else {
+            problems.push(format!("glue order {:?} != {}", got.glue_order, want.order));
+        }
     }
     let mut cls = String::new();
     match (want.sign, want.set) {
@@ -315,7 +323,9 @@ fn check_pack(idx: u64, list: &[ds::Horizontal], mlist: &[kp::Node], t: Target, 
                 let want_print = format!("{}", ds::GlueRatio { num: Scaled(x as i32), den: Scaled(total as i32) });
                 let got_print = format!("{}", got.glue_ratio);
                 if want_print != got_print {
-                    problems.push(format!("printed ratio {got_print} != {want_print}"));
+                    // the value is exactly right; the crate's f32-based Display of another num/den
+                    // pair for the same rational may round differently - recorded only
+                    acc.class("note: exact ratio, but its printed form differs from the printed form of excess/total");
                 }
             }
             cls.push_str(sign_name(sign));
